@@ -179,7 +179,7 @@ def _test_feature_files():
         return []
 
 
-FIXED = ["order", "feature-order-vs-lookup-order", "two-lookups-one-glyph", "script-resets-lookupflag", "vertical-values", "known:inline-lig-prefix", "known:ignore-multi-marked", "known:contourpoint-zero", "pair-subtables", "marks", "chain-positions",
+FIXED = ["order", "feature-order-vs-lookup-order", "two-lookups-one-glyph", "script-resets-lookupflag", "vertical-values", "format2-contexts", "mixed-brackets", "variable-scalars", "known:inline-lig-prefix", "known:ignore-multi-marked", "known:contourpoint-zero", "pair-subtables", "marks", "chain-positions",
          "ligature-longest", "flags"]
 
 
@@ -193,6 +193,8 @@ def cases(tier, seed):
                    "must": rel.startswith("feaLib/data/") and base in must})
     for name in FIXED:
         cs.append({"id": "gen:" + name, "kind": "fixed", "name": name, "seed": seed})
+    for k in range(24 if T else 4):
+        cs.append({"id": "gen:var:%d" % k, "kind": "var", "n": 20 if T else 8, "seed": seed})
     nb, per = (320, 20) if T else (36, 8)
     for k in range(nb):
         level = 1 if k % 6 == 0 else 2 if k % 6 == 1 else 3
@@ -428,6 +430,19 @@ def _strip(lk):
                 del r[k]
 
 
+def _font_for(prog):
+    """The skeleton font of a program: the common base font, plus fvar for variable programs."""
+    from fontTools.ttLib import TTFont
+
+    f = TTFont(io.BytesIO(_S["base"]))
+    if prog.get("axis"):
+        from fontTools.fontBuilder import addFvar
+
+        tag, lo, df, hi = prog["axis"]
+        addFvar(f, [(tag, lo, df, hi, "Weight")], [])
+    return f
+
+
 def _hb_shape(h, order, seq, feats, sc, lg):
     cps = [corpus.PUA + order.index(n) for n in seq]
     lang = "dflt" if lg == "dflt" else "x-hbot" + lg.strip().lower()
@@ -444,7 +459,7 @@ def judge_program(ctx, prog, texts, label, sample=False):
     fea, model = prog["fea"], prog["model"]
     for k in prog.get("kinds", ()):
         ctx.note("stmt:" + k)
-    font = TTFont(io.BytesIO(_S["base"]))
+    font = _font_for(prog)
     del hooks.events[:]
     try:
         addOpenTypeFeaturesFromString(font, fea)
@@ -455,13 +470,18 @@ def judge_program(ctx, prog, texts, label, sample=False):
         ctx.violation(exc_mech("compile", e, clause=label), "compiling a generated feature file raised %s: %s" % (type(e).__name__, str(e)[:300]),
                       {"fea": fea[:6000]})
         return
+    for e in hooks.events:
+        if e[0] == "walked":
+            for k_, v_ in e[2].items():
+                if k_[:5] in ("GSUB5", "GSUB6", "GPOS7", "GPOS8") or k_.startswith(("Device", "VariationIndex")):
+                    ctx.note("written " + k_, v_)
     built = [e for e in hooks.events if e[0] == "built"]
     for e in built:
         ctx.note("lookup-built:%s/type%s" % (e[1], e[3]))
         if e[2] and e[2] > 1:
             ctx.note("lookup-subtables>1:%s" % e[1])
     data = b.getvalue()
-    h = HB(data)
+    hbs = {None: HB(data)}
     order = G.ORDER
     try:
         ref = otlref.Interp(model)
@@ -470,14 +490,21 @@ def judge_program(ctx, prog, texts, label, sample=False):
         return
     bad = 0
     first = None
-    for kind, seq, feats, sc, lg in texts:
+    for text in texts:
+        kind, seq, feats, sc, lg = text[:5]
+        loc = text[5] if len(text) > 5 else None
         try:
-            want = ref.shape(seq, feats, sc, lg)
+            want = ref.shape(seq, feats, sc, lg, loc=loc)
         except otlref.Undetermined as e:
             ctx.skip("undetermined:" + str(e))
             continue
         trace = list(ref.trace)
+        if loc not in hbs:
+            hbs[loc] = HB(data, variations={prog["axis"][0]: loc})
+        h = hbs[loc]
         got = _hb_shape(h, order, seq, feats, sc, lg)
+        if loc is not None:
+            ctx.note("text shaped at a non-default axis location")
         ctx.judged()
         fired = sorted({t[3] for t in trace})
         if want == got:
@@ -503,7 +530,7 @@ def judge_program(ctx, prog, texts, label, sample=False):
         alt = _merged_inline_ligatures(model)
         if alt is not None:
             try:
-                if otlref.Interp(alt).shape(seq, feats, sc, lg) == got:
+                if otlref.Interp(alt).shape(seq, feats, sc, lg, loc=loc) == got:
                     cause = "inline-ligature-lookups-merged"
             except otlref.Undetermined:
                 pass
@@ -512,12 +539,12 @@ def judge_program(ctx, prog, texts, label, sample=False):
             mech["fired"] = "+".join(fired) or "none"
         ctx.violation(mech, "HarfBuzz on the compiled font disagrees with the rules for text %s (features %s, %s/%s): rules say %s, font gives %s"
                       % (" ".join(seq), feats, sc, lg.strip(), want, got),
-                      {"fea": fea[:8000], "text": seq, "features": feats, "script": sc, "lang": lg, "reference": want,
+                      {"fea": fea[:8000], "text": seq, "features": feats, "script": sc, "lang": lg, "location": loc, "reference": want,
                        "harfbuzz": got, "rules_fired_in_reference": trace[:20]})
     # text clauses
     gm = font.getReverseGlyphMap()
     n0 = ctx.evals
-    text_clauses(ctx, fea, lambda: TTFont(io.BytesIO(_S["base"])), gm, must=True, label=label)
+    text_clauses(ctx, fea, lambda: _font_for(prog), gm, must=True, label=label)
     if ctx.evals > n0:
         ctx.nontrivial("text-clauses|" + "+".join(sorted(k for k in prog.get("kinds", ()) if not k.startswith(("named", "nested", "range"))))[:400])
     if sample and ctx.sample is None:
@@ -541,6 +568,16 @@ def run_gen(case, ctx):
         judge_program(ctx, prog, texts, "gen", sample=(k == 0))
 
 
+def run_var(case, ctx):
+    from vmon.gen import c11_fea as G
+
+    rnd = random.Random("%s/%s" % (case["id"], case["seed"]))
+    for k in range(case["n"]):
+        prnd = random.Random(rnd.getrandbits(64))
+        prog, texts = G.generate_variable(prnd)
+        judge_program(ctx, prog, texts, "gen", sample=(k == 0))
+
+
 def run_fixed(case, ctx):
     from vmon.gen import c11_fixed as F
 
@@ -553,5 +590,7 @@ def run_case(case, ctx):
         run_corpus(case, ctx)
     elif case["kind"] == "fixed":
         run_fixed(case, ctx)
+    elif case["kind"] == "var":
+        run_var(case, ctx)
     else:
         run_gen(case, ctx)
